@@ -157,6 +157,25 @@ def gen_assign(rng, cfg, vars_):
                     gen_subscript(rng, vars_[0], cfg, vars_)])
         return {"k": "assign", "lhs": lhs,
                 "rhs": _fix_calls(gen_real_expr(rng, cfg, vars_), rng)}
+    if kind == "stencil2" and len(vars_) >= 2:
+        # a rank-2 stencil on the array that is written: the bread and
+        # butter of real kernels (a(i,j) = a(i-1,j-1) + b(i,j)); offsets in
+        # both directions so that the dependence may sit on either loop
+        arr = pick(rng, REAL_ARRAYS2)
+        other = pick(rng, REAL_ARRAYS2)
+        d1, d2 = pick(rng, [(-1, -1), (1, -1), (-1, 1), (1, 1), (0, -1),
+                            (-1, 0), (0, 1), (1, 0), (2, -1), (-1, 2)])
+
+        def shifted(var, d):
+            if d == 0:
+                return ref(var)
+            return binop("+" if d > 0 else "-", ref(var), lit(abs(d)))
+        lhs = aref(arr, [ref(vars_[-1]), ref(vars_[0])])
+        src = aref(arr if rng.random() < 0.75 else other,
+                   [shifted(vars_[-1], d1), shifted(vars_[0], d2)])
+        return {"k": "assign", "lhs": lhs,
+                "rhs": binop("+", src, aref(other, [ref(vars_[-1]),
+                                                    ref(vars_[0])]))}
     if kind == "scal":
         name = pick(rng, REAL_SCALARS)
         st = {"k": "assign", "lhs": ref(name),
@@ -249,7 +268,7 @@ def gen_program(rng, mode="omp"):
     cfg = {
         "subscripts": subs,
         "stmts": [(6, "arr"), (2, "arr2"), (3, "scal"), (1, "iscal"),
-                  (0.6, "accum"), (0.5, "iarr")],
+                  (0.6, "accum"), (0.5, "iarr"), (2, "stencil2")],
         "p_if": pick(rng, [0.0, 0.15, 0.3]),
         "p_inner": pick(rng, [0.0, 0.2, 0.35]),
         # write-only scalars in a loop are a known finding (KF-C09-3);
@@ -304,6 +323,8 @@ def stmt_text(s, ind):
         for b in s["body"]:
             out += stmt_text(b, ind + 1)
         return out + [f"{pad}end do"]
+    if s["k"] == "callstmt":
+        return [f"{pad}call {s['f']}({', '.join(s['args'])})"]
     if s["k"] == "if":
         out = [f"{pad}if ({expr_text(s['cond'])}) then"]
         for b in s["then"]:
